@@ -53,7 +53,8 @@ Theorem comments_pis_and_stray_text_do_not_matter : forall t, erase (trim (bare 
 Proof. exact L_spelling_does_not_matter. Qed.
 Print Assumptions comments_pis_and_stray_text_do_not_matter.
 
-(* blanks, tabs and line ends in front of a token's text do not matter (inside, every run counts as one blank) *)
-Theorem leading_blanks_do_not_matter : forall pad s, forallb is_ws pad = true -> norm_ws (pad ++ s) = norm_ws s.
-Proof. exact L_leading_blanks_do_not_matter. Qed.
-Print Assumptions leading_blanks_do_not_matter.
+(* blanks, tabs and line ends around a token's text do not matter (inside, every run counts as one blank) *)
+Theorem blanks_around_token_text_do_not_matter : forall pad s pad', forallb is_ws pad = true -> forallb is_ws pad' = true ->
+  norm_ws (pad ++ s ++ pad') = norm_ws s.
+Proof. exact L_blanks_around_do_not_matter. Qed.
+Print Assumptions blanks_around_token_text_do_not_matter.
